@@ -62,6 +62,8 @@ macro_rules! impl_debugs {
 pub mod zip;
 
 #[macro_use]
+#[cfg(chalk_verif)]
+pub mod verif;
 pub mod fold;
 
 #[macro_use]
